@@ -10,6 +10,7 @@ fn main() {
         "c01" => checks::c01::main(&a),
         "c02" => checks::c02::main(&a),
         "c04" => checks::c04::main(&a),
+        "c08" => checks::c08::main(&a),
         other => report::machinery(&format!("unknown check {other}")),
     }
 }
